@@ -226,6 +226,8 @@ Proof.
   split; [exact facts_43|]. split; [exact sqrt_facts_43|]. split; [reflexivity|]. split; [reflexivity|].
   split; vm_compute; discriminate.
 Qed.
+(* (facts_79 / sqrt_facts_79 and facts_67 / sqrt_facts_67 in Proofs/SmallCurves79.v, SmallCurves67.v, Sec1Small.v give the
+   same premises on the two larger small curves; they are not imported here to keep coqchk of this file short) *)
 Lemma w43 : 43 <= 2 ^ 256. Proof. vm_compute. discriminate. Qed.
 
 (* the commutation theorem, unconditional on the small curve *)
@@ -282,14 +284,18 @@ Example C09_ex_derive :
     exists v fp cc k, deserialized_extended_key 43 0 7 31 ex_sha y = Ok (v, [x02], fp, S.ser32 (2 ^ 31 + 2), cc, KPriv k).
 Proof. eexists. split; [vm_compute; reflexivity|]. split; [vm_compute; reflexivity|]. do 4 eexists. vm_compute. reflexivity. Qed.
 
+Definition ex_xpub :=
+  Eval vm_compute in match get_xpub 43 0 7 31 G43 ex_sha ex_xprv with Ok x => x | _ => [] end.
 Example C09_ex_derive_pub :
-  exists xpub y, get_xpub 43 0 7 31 G43 ex_sha ex_xprv = Ok xpub /\
-    (* "M/1" from the xpub equals the neutered "m/1" from the xprv *)
-    ex_derive [x4d; x2f; x31] xpub = Ok y /\
-    bind (ex_derive [x6d; x2f; x31] ex_xprv) (get_xpub 43 0 7 31 G43 ex_sha) = Ok y /\
-    (* hardened from public: refused *)
-    ex_derive [x4d; x2f; x31; x27] xpub = Err ValueE.
-Proof. do 2 eexists. repeat split; vm_compute; reflexivity. Qed.
+  get_xpub 43 0 7 31 G43 ex_sha ex_xprv = Ok ex_xpub /\
+  (* "M/1" from the xpub equals the neutered "m/1" from the xprv *)
+  ex_derive [x4d; x2f; x31] ex_xpub = bind (ex_derive [x6d; x2f; x31] ex_xprv) (get_xpub 43 0 7 31 G43 ex_sha) /\
+  is_ok (ex_derive [x4d; x2f; x31] ex_xpub) = true /\
+  (* hardened from public: refused;  m/.. from an xpub, M/.. from an xprv: refused *)
+  ex_derive [x4d; x2f; x31; x27] ex_xpub = Err ValueE /\
+  ex_derive [x6d; x2f; x31] ex_xpub = Err ValueE /\
+  ex_derive [x4d; x2f; x31] ex_xprv = Err ValueE.
+Proof. vm_compute. repeat split; reflexivity. Qed.
 
 (* rejected payloads: a valid key with one field mutated each *)
 Definition ex_mut (f : bytes -> bytes) : result fields :=
